@@ -167,6 +167,14 @@ func (P *Program) registerVH() {
 			return fr.in.newNondet(fr.in.goStr(args[0], "nondet name"), kind, s)
 		}
 	}
+	P.reg(VH+".Interleave", func(fr *frame, args []value) value {
+		fr.in.interleave(fr, [2]value{args[0], args[1]})
+		return nil
+	})
+	P.reg(VH+".Yield", func(fr *frame, args []value) value {
+		fr.in.yield(fr.in.mustInt(args[0], "vh.Yield bound"))
+		return nil
+	})
 	P.reg(VH+".NondetBool", nd("bool", smt.Bool))
 	P.reg(VH+".NondetI8", nd("i8", smt.BV(8)))
 	P.reg(VH+".NondetU8", nd("u8", smt.BV(8)))
